@@ -29,5 +29,13 @@ Fixpoint gaps_ok (slack : Z) (exp : list (option Z)) (gaps : list Z) : bool :=
   | None :: e, g :: gs => (0 <=? g) && (g <=? slack) && gaps_ok slack e gs
   end.
 
+(* the run-level bound of C08_no_busy_loop on an observed run: the time waited
+   in total is at least 0.9 x firstRetryWaitDuration per failed list call (less
+   1 ns truncation and 1 ns float rounding each), gaps after successes included *)
+Definition total_ok (c : list bool * list Z) : bool :=
+  let f := failures (firstn (length (snd c)) (fst c)) in
+  (jitter_den - jitter_num) * firstRetryWaitDuration * f
+    <=? jitter_den * fold_right Z.add 0 (snd c) + 2 * jitter_den * f.
+
 Definition loop_ok (slack : Z) (c : list bool * list Z) : bool :=
-  gaps_ok slack (expected_from 0 (fst c)) (snd c).
+  gaps_ok slack (expected_from 0 (fst c)) (snd c) && total_ok c.
